@@ -27,7 +27,10 @@ type Thread struct {
 	// LoadCost is the virtual time charged to this thread for every atomic load it performs
 	// (how "a match that runs for W" is expressed on the real interpreter).
 	LoadCost int64
-	Daemon   bool // started by the code under test (e.g. the clock goroutine)
+	// Free marks a thread whose operations cost no virtual time (every shim operation is a pure scheduling
+	// point). With Sched.TimeDev set, such a thread may also be held up until the next timer event.
+	Free   bool
+	Daemon bool // started by the code under test (e.g. the clock goroutine)
 	Aux      int  // free for the harness (e.g. interpreter step counter)
 	steps    int
 }
@@ -50,6 +53,7 @@ type Sched struct {
 	done     chan struct{}
 	Jitter   int64 // extra delay a Sleep wake-up may suffer (0 = no jitter choices)
 	PoolDev  bool  // offer pool miss / drop / other-item answers
+	TimeDev  bool  // offer "the running free thread is held up until the next timer event" (a deviation, kind 't')
 	Steps    int
 	MaxSteps int
 	Aborted  bool
@@ -155,6 +159,27 @@ func (s *Sched) schedule(op string) {
 		if s.Aborted {
 			s.finish(me)
 			return
+		}
+		if s.TimeDev && me != nil && me.st == stRunnable && me.Free {
+			// deviation: the running thread is descheduled until the next sleeper is due (virtual time
+			// jumps there); the woken threads then compete with it at this very point
+			var min int64 = -1
+			for _, t := range s.threads {
+				if t.st == stSleeping && (min < 0 || t.wakeAt < min) {
+					min = t.wakeAt
+				}
+			}
+			if min >= 0 && s.Choose(2, 't', false, "hold:"+op) == 1 {
+				if min > s.Now {
+					s.Now = min
+				}
+				for _, t := range s.threads {
+					if t.st == stSleeping && t.wakeAt <= s.Now {
+						t.st = stRunnable
+					}
+				}
+				en = s.enabledList()
+			}
 		}
 		idx := 0
 		if len(en) > 1 {
